@@ -1224,6 +1224,9 @@ class ItemSpaceParent(ItemFactoryImpl, BaseNamespaceReferrer, HasFormula):
                 self.altfunc = BoundFunction(self)
                 self.altfunc.notify()
             else:
+                if not isinstance(formula, ParamFunc):
+                    # Parse first: a rejected formula must leave the old one
+                    formula = ParamFunc(formula, name="_formula")
                 self.del_formula()
                 self.set_formula(formula)
 
